@@ -531,7 +531,7 @@ class RangesStream(Stream):
             R(fl(0, 1), 6, (3, 3), if_range={"etag": ["old", False]}, etag=["abc", False]),
             R(fl(0, 1), 6, (3, 3), if_range={"t": T0, "fmt": 0}, lm=T0),
             R(fl(0, 1), 6, (3, 3), if_range={"t": T0 - 5, "fmt": 1}, lm=T0),
-            # F11g (known): the unquoted If-Range tag is re-parsed as a tag list
+            # F11g (repaired by 9be10e4): the unquoted If-Range tag was re-parsed as a tag list
             R(fl(0, 1), 6, (3, 3), if_range={"etag": ["*", False]}, etag=["abc", False]),
             R(fl(0, 1), 6, (3, 3), if_range={"etag": ["xyz, abc", False]}, etag=["abc", False]),
             R(fl(0, 1), 6, (3, 3), if_range={"etag": ["W/abc", False]}, etag=["abc", False]),
@@ -594,7 +594,7 @@ class RangesStream(Stream):
                 c["etag"], c["lm"] = etag, lm
                 y = rng.random()
                 if y < 0.08:
-                    # an If-Range tag whose text looks like syntax (F11g: "*" / "a, b" are re-parsed)
+                    # an If-Range tag whose text looks like syntax (F11g, repaired: "*" / "a, b" were re-parsed)
                     c["if_range"] = {"etag": [rng.choice(SYNTAX_TAGS + ["abc,xyz", "xyz, abc", "abc"]), False]}
                 elif y < 0.3:
                     c["if_range"] = {"etag": ["abc", False]}
@@ -776,10 +776,7 @@ class RangesStream(Stream):
             return want_full("a response that does not accept ranges / has no known length")
         verdict = self.if_range_verdict(case)
         if verdict == "fail":
-            what = want_full("a failed If-Range")
-            if what is not None and self.is_f11g(case, f):
-                return "[ifrange-reparse] " + what
-            return what
+            return want_full("a failed If-Range")
         spec = case["spec"]
         cls = None
         if "raw" in spec:
@@ -840,35 +837,9 @@ class RangesStream(Stream):
             return f"206 range [{a},{b}) is not inside the requested [{ra},{rb})"
         return None
 
-    def is_f11g(self, case, f):
-        """the specific shape of known finding F11g: a strong If-Range entity tag whose text, taken
-        *without its quotes* as a header list, has the wildcard `*` (or `W/*`) as an entry or is a
-        comma-separated list with the response's (strong) tag among its entries - and the outcome is exactly the 206 an If-Range that
-        validates would have produced (same Content-Range / body as without If-Range)"""
-        ir, et = case["if_range"], case["etag"]
-        if not ir or "etag" not in ir or et is None or ir["etag"][1] or et[1]:
-            return False
-        ie, e = ir["etag"][0], et[0]
-        if ie == e:
-            return False
-        if '"' in ie:
-            return False
-        pieces = [p.strip() for p in ie.split(",")]
-        unweak = [p[2:] if p[:2] in ("W/", "w/") else p for p in pieces]
-        wildcard = "*" in unweak
-        listed = len(pieces) > 1 and any(p == e and p[:2] not in ("W/", "w/") for p in pieces)
-        if not (wildcard or listed):
-            return False
-        # ... and the outcome is exactly what the same request *without* If-Range gets
-        from vlib.core import real_out as run_real
-
-        return run_real(self, dict(case, if_range=None)) == "|".join(f)
-
     def finding_key(self, case, what):
         if what.startswith("[len0] "):
             return "F11f"
-        if what.startswith("[ifrange-reparse] "):
-            return "F11g"
         return None
 
     def nontrivial(self, case, real_out):
@@ -1352,7 +1323,7 @@ CHECK = Check(
         "_etag_re, _plain_int_re and the split/strip calls of parse_range_header are hand-modelled and validated by streams parsers / ranges; the live parse_etags is additionally evaluated over ~2100 small header texts (all texts of length <= 3 over the alphabet \"*W/, a; a pool of syntax-looking tags alone, in pairs and triples) into Gen/EtagTbl.lean and compared with the model by decide (etag_table_agrees); the pattern and flags of _etag_re are pinned (etag_re_pinned)",
         "send_file: os.stat / utime, repr(float mtime) and adler32(path) are opaque inputs of the model (the harness computes them independently of werkzeug); the model builds the tag text, the Last-Modified instant (mtime floored to seconds) and hands both to the make_conditional model; files are real files under /var/tmp/wzverif-c11",
         "constants of the glue (environ keys per argument, GET/HEAD, 412/304/206, the arguments of the is_resource_modified and make_conditional calls, the generated-tag format, the 8192-byte block) are read from the AST / live objects into Gen/CondConsts.lean and pinned by decide (cond_constants_pinned)",
-        "known finding F11g: an If-Range entity tag is handed unquoted to parse_etags, so the tag texts * (W/*) and comma lists are re-interpreted; if_range_etag_partial excludes exactly those, if_range_etag_full_false is the witness",
+        "F11g (an If-Range entity tag handed unquoted to parse_etags) was repaired by 9be10e4: the model compares the unquoted tag texts directly, if_range_etag_text_iff / if_range_etag_full hold for every tag text, the former witnesses are regression theorems and corpus cases",
         "is_byte_range_valid, Range.range_for_length, Range.__init__, parse_range_header, unquote_etag, IfRange.__init__, parse_if_range_header (parse_date opaque) and _plain_int are regenerated from the source by tools/py2lean.py (Gen/PyFns_Range.lean, Gen/PyFns_Internal.lean) on every run and proved equal to the hand model for all inputs, including that they never raise (Props/C11T); the CPython primitives the translated code calls are modelled in Util/PyPrelude.lean and validated by stream prelude-kernels",
     ],
     trusted_extra=["CPython re / str / datetime / io semantics for the modelled primitives (validated by the streams, not verified)"],
@@ -1362,7 +1333,7 @@ CHECK = Check(
 
 MANIFEST = {
     "level_text": "Machine-checked Lean 4 theorems about an executable model of is_resource_modified, parse_range_header, Range.range_for_length, is_byte_range_valid (compared with the live function over a cube by decide), Response.make_conditional / _process_range_request and wsgi._RangeWrapper: the not-modified condition is characterised exactly, range_for_length is sound, and the range wrapper is proved to emit exactly body[start:start+len] for every chunking of the body (including empty chunks) on both the iterator and the seekable-file path; on header TEXT the 304 / 412 decisions are characterised for every list of quoted entity tags through the model of _etag_re (a quoted \"*\" is an ordinary tag; the live parse_etags is compared with the model over a regenerated table by decide); every satisfiable first-last / open / suffix range is answered 206 with exactly the requested bytes for list, generator, seekable and non-seekable file bodies; the argument forms of make_conditional and utils.send_file (generated ETag, Last-Modified from mtime, conditional=True glue) are modelled and proved to reduce to the same decision procedure; the model is tied to the code by four differential streams (one of them drives send_file on real files that change between requests) and the property oracle (independent reference) runs on the real code.",
-    "level_note": "Trusted: Lean kernel; extract.py; the correspondence harness; CPython re/str/datetime/io for modelled primitives; parse_date is modelled for IMF-fixdate text (C06's date model) and an opaque parameter for other notations; os.stat / float repr / adler32 are opaque inputs of the send_file model. Known findings F11f (ranges on empty resources are ignored instead of 416) and F11g (an If-Range entity tag whose text is * or a comma list is re-parsed as a tag list and validates).",
+    "level_note": "Trusted: Lean kernel; extract.py; the correspondence harness; CPython re/str/datetime/io for modelled primitives; parse_date is modelled for IMF-fixdate text (C06's date model) and an opaque parameter for other notations; os.stat / float repr / adler32 are opaque inputs of the send_file model. Known finding F11f (ranges on empty resources are ignored instead of 416).",
     "technique": "Lean 4 proof (induction over chunk lists, case analysis of the decision procedure, decide over a regenerated table) + model/code correspondence",
     "design_ref": "DESIGN.md section 4, C11",
 }
